@@ -246,13 +246,55 @@ namespace mon
       }
    }
    inline const config CONFIG = { "plain", 0, MON_LAZY != 0, MON_EOL, 0, true };
+#elif defined( MON_CLIENT )
+}  // namespace mon
+#include <tao/pegtl/contrib/coverage.hpp>
+#include <tao/pegtl/contrib/trace.hpp>
+#include <iostream>
+namespace mon
+{
+   struct null_buf : std::streambuf { int overflow( int c ) override { return c; } };
+
+   template< typename G >
+   void run_entry( const runreq& rq, runres& rs )
+   {
+      input_t in( rq.b, rq.e, "x" );
+      pegtl::coverage_result cov;
+      static null_buf nb;
+      std::streambuf* old = std::cerr.rdbuf( &nb );
+      try {
+#if MON_CLIENT == 1
+         const bool r = pegtl::coverage< G, actA, ctlA >( in, cov, RC.s0 );
+#elif MON_CLIENT == 2
+         const bool r = pegtl::standard_trace< G, actA, ctlA >( in, RC.s0 );
+#else
+         const bool r = pegtl::complete_trace< G, actA, ctlA >( in, RC.s0 );
+#endif
+         rs.st = r ? 1 : 0;
+         rs.end_byte = in.byte();
+         rs.end_ptr = in.current();
+      }
+      catch( ... ) {
+         classify_current_exception( rs );
+      }
+      std::cerr.rdbuf( old );
+      for( const auto& [ name, e ] : cov ) {
+         on_coverage_counters( name, std::string_view(), e.start, e.success, e.failure, e.unwind );
+         for( const auto& [ bn, b ] : e.branches ) on_coverage_counters( name, bn, b.start, b.success, b.failure, b.unwind );
+      }
+   }
+   inline const config CONFIG = { "client", MON_VARIANT, MON_LAZY != 0, MON_EOL, MON_CTRL, false, false, 0, false, MON_CLIENT };
 #else
    template< typename G >
    void run_entry( const runreq& rq, runres& rs )
    {
       input_t in( rq.b, rq.e, "x" );
       try {
+#if defined( MON_TOP_NOTHING )
+         const bool r = pegtl::parse< G, actA, ctlA, pegtl::apply_mode::nothing, pegtl::rewind_mode::required >( in, RC.s0 );
+#else
          const bool r = pegtl::parse< G, actA, ctlA >( in, RC.s0 );
+#endif
          rs.st = r ? 1 : 0;
          rs.end_byte = in.byte();
          rs.end_ptr = in.current();
@@ -264,7 +306,11 @@ namespace mon
 #if defined( MON_ANA )
    inline const config CONFIG = { "ana", MON_VARIANT, MON_LAZY != 0, MON_EOL, MON_CTRL, false, false, 0, true };
 #else
+#if defined( MON_TOP_NOTHING )
+   inline const config CONFIG = { "mon-nothing-required", MON_VARIANT, MON_LAZY != 0, MON_EOL, MON_CTRL, false, false, 0, false, 0, false, 0, true };
+#else
    inline const config CONFIG = { "mon", MON_VARIANT, MON_LAZY != 0, MON_EOL, MON_CTRL, false };
+#endif
 #endif
 #endif
 }  // namespace mon
